@@ -420,10 +420,15 @@ pub trait PixelDataWriter {
     ) -> EncodeResult<Vec<AttributeOp>> {
         let frames = src.number_of_frames().unwrap_or(1);
         let mut out = Vec::new();
+        // each offset is the distance from the first byte of the first fragment's
+        // item tag to the first byte of the item tag of the frame's fragment,
+        // where each item header takes 8 bytes
+        let mut offset: u32 = dst.iter().map(|f| f.len() as u32 + 8).sum();
         for frame in 0..frames {
             let mut frame_data = Vec::new();
             out = self.encode_frame(src, frame, options.clone(), &mut frame_data)?;
-            offset_table.push(frame_data.len() as u32 + 8 * (frame + 1));
+            offset_table.push(offset);
+            offset += frame_data.len() as u32 + 8;
             dst.push(frame_data);
         }
         Ok(out)
